@@ -85,6 +85,8 @@ class Ctx:
 
     def __getattr__(self, name):
         a = self.__dict__.get("args", {})
+        if "*" + name in a:
+            return a["*" + name].t
         if name in a:
             return a[name].t
         raise AttributeError(name)
@@ -157,10 +159,10 @@ class HeapExec(Exec):
     def global_name(self, name, p):
         if name == "ASSERTIONS":
             yield p, vbool(ASSERTIONS)
-        elif name in ("NodeMixin", "LightNodeMixin", "TreeError", "LoopError", "PreOrderIter"):
+        elif name in ("NodeMixin", "LightNodeMixin", "TreeError", "LoopError", "PreOrderIter", "WalkError", "Walker"):
             yield p, V("class", name)
         elif name in ("hasattr", "isinstance", "tuple", "len", "any", "all", "id", "set", "list", "reversed",
-                      "enumerate", "max", "super"):
+                      "enumerate", "max", "super", "next", "zip"):
             yield p, V("builtin", name)
         else:
             raise Unsupported("global name %s" % name)
@@ -276,7 +278,44 @@ class HeapExec(Exec):
         return Exec.as_iterseq(self, v, p)
 
     def e_ListComp(self, e, p):
+        # [v.attr for v in S] with a functional contract of attr: a sequence of sequences (rows)
+        if len(e.generators) == 1 and not e.generators[0].ifs and isinstance(e.generators[0].target, ast.Name) \
+                and isinstance(e.elt, ast.Attribute) and isinstance(e.elt.value, ast.Name) \
+                and e.elt.value.id == e.generators[0].target.id:
+            spec = self.fam.specs.get((self.mangle(e.elt.attr), "getter"))
+            if spec is not None and len(spec.outcomes) == 1 and spec.outcomes[0].value is not None \
+                    and spec.outcomes[0].res == "aseq" and not spec.outcomes[0].mods:
+                for q, sv in self.ev(e.generators[0].iter, p):
+                    s = self.seq_of(sv, q)
+                    kq = Int(fresh("row"))
+                    sub = q.fork(And(0 <= kq, kq < s.n))
+                    obj = vref(s.a[kq])
+                    self.need_node(obj, sub, e.elt.attr)
+                    ctx = Ctx(spec, sub.S, {"self": obj})
+                    for c in clauses(spec.requires(ctx)):
+                        self.oblig(sub, "PRE", "get:%s/%s" % (e.elt.attr, c.name), c.f)
+                    S_ = q.S
+                    yield q, V("seqseq", (s.n, (lambda sp, SS, ss: lambda k: sp.outcomes[0].value(Ctx(sp, SS, {"self": vref(ss.a[k])})))(spec, S_, s)))
+                return
         yield from self.comprehension(e, p, "list")
+
+    def identity_index_pattern(self, g):
+        """(i for i, v in enumerate(S) if v is X)"""
+        if len(g.generators) != 1:
+            return False
+        c = g.generators[0]
+        t = c.target
+        if not (isinstance(t, ast.Tuple) and len(t.elts) == 2 and all(isinstance(x, ast.Name) for x in t.elts)):
+            return False
+        it = c.iter
+        if not (isinstance(it, ast.Call) and isinstance(it.func, ast.Name) and it.func.id == "enumerate" and len(it.args) == 1
+                and not it.keywords and len(c.ifs) == 1):
+            return False
+        f = c.ifs[0]
+        if not (isinstance(f, ast.Compare) and len(f.ops) == 1 and isinstance(f.ops[0], ast.Is)):
+            return False
+        names = [x.id for x in (f.left, f.comparators[0]) if isinstance(x, ast.Name)]
+        return t.elts[1].id in names and isinstance(g.elt, ast.Name) and g.elt.id == t.elts[0].id
 
     def e_GeneratorExp(self, e, p):
         raise Unsupported("generator expression outside any()/all()/tuple()/max()")
@@ -290,6 +329,9 @@ class HeapExec(Exec):
     def comprehension(self, e, p, result):
         """[v for v in L if v is not X]  ->  the list L without the element X (lemma L1: on a duplicate-free
         list holding X at position k this is remove_at(L, k); both premises are obligations)."""
+        if self.zip_is_pattern(e):
+            yield from self.zip_is_comprehension(e, p, result)
+            return
         var, it, ifs, elt = self.comp_parts(e)
         if not (isinstance(elt, ast.Name) and elt.id == var and len(ifs) == 1):
             raise Unsupported("comprehension %s" % ast.unparse(e))
@@ -314,11 +356,54 @@ class HeapExec(Exec):
             else:
                 yield q, V("aseq", ASeq(L.n - 1, arr))
 
+    def zip_is_pattern(self, e):
+        """(a for a, b in zip(X, Y) if a is b)"""
+        if len(e.generators) != 1:
+            return False
+        g = e.generators[0]
+        t = g.target
+        if not (isinstance(t, ast.Tuple) and len(t.elts) == 2 and all(isinstance(x, ast.Name) for x in t.elts)):
+            return False
+        a, b = t.elts[0].id, t.elts[1].id
+        it = g.iter
+        if not (isinstance(it, ast.Call) and isinstance(it.func, ast.Name) and it.func.id == "zip" and len(it.args) == 2
+                and not it.keywords and len(g.ifs) == 1):
+            return False
+        c = g.ifs[0]
+        ok = (isinstance(c, ast.Compare) and len(c.ops) == 1 and isinstance(c.ops[0], ast.Is)
+              and isinstance(c.left, ast.Name) and isinstance(c.comparators[0], ast.Name)
+              and {c.left.id, c.comparators[0].id} == {a, b})
+        return ok and isinstance(e.elt, ast.Name) and e.elt.id in (a, b)
+
+    def zip_is_comprehension(self, e, p, result):
+        """lemma L2: if the positions at which two sequences hold the identical object are downward closed (premise,
+        an obligation here), the identity-filter over their zip is their common prefix: there is k with
+        s[:k] == t[:k] element-wise, s[k] is not t[k] (if both exist), and the result is s[:k]"""
+        it = e.generators[0].iter
+        for q, (sv, tv) in self.evs2(it.args[0], it.args[1], p):
+            s, t = self.seq_of(sv, q), self.seq_of(tv, q)
+            i, j = Int("i"), Int("j")
+            mn = If(s.n < t.n, s.n, t.n)
+            self.oblig(q, "LEMMA-PREMISE", "L2:agreement-downward-closed",
+                       ForAll([i, j], Implies(And(0 <= i, i < j, j < mn, s.a[j] == t.a[j]), s.a[i] == t.a[i])),
+                       note="premise of lemma L2 (filter over zip by identity = common prefix)")
+            k = Int(fresh("common"))
+            q.assume(0 <= k, k <= mn, ForAll([i], Implies(And(0 <= i, i < k), s.a[i] == t.a[i])),
+                     Implies(k < mn, s.a[k] != t.a[k]))
+            yield q, V("aseq", ASeq(k, s.a))
+
     def subscript_load(self, obj, key, p, e):
         if obj.k in ("aseq", "listref") and key.k == "int":
             s = self.seq_of(obj, p)
             idx = If(key.t < 0, key.t + s.n, key.t)
-            self.oblig(p, "SAFE", "index", And(0 <= idx, idx < s.n), note="no IndexError")
+            if self.handlers:
+                # inside a try-block the IndexError is an ordinary outcome (it may be caught)
+                r = p.fork(Not(And(0 <= idx, idx < s.n)), "index:out-of-range")
+                if feasible(r.pc):
+                    self.raise_(r, Exc("IndexError", "subscript"))
+                p.trace.append("index:ok")
+            else:
+                self.oblig(p, "SAFE", "index", And(0 <= idx, idx < s.n), note="no IndexError")
             yield p.assume(0 <= idx, idx < s.n), vref(s.a[idx])
             return
         if obj.k == "tuple" and key.k == "int":
@@ -344,12 +429,13 @@ class HeapExec(Exec):
         arr = Array(fresh("slice"), I, R)
         i = Int("i")
         p.assume(ForAll([i], arr[i] == s.a[i + a]))
-        yield p, V("aseq", ASeq(n, arr))
+        yield p, V("aseq", ASeq(n, arr), {"base": s, "off": a})
 
     # ------------------------------------------------------------------ calls
     def call(self, e, p):
         f = e.func
-        if any(isinstance(a, ast.Starred) for a in e.args) or any(k.arg is None for k in e.keywords):
+        star_ok = isinstance(f, ast.Name) and f.id == "zip" and f.id not in p.env and len(e.args) == 1 and not e.keywords
+        if (any(isinstance(a, ast.Starred) for a in e.args) and not star_ok) or any(k.arg is None for k in e.keywords):
             raise Unsupported("star args in %s" % ast.unparse(e))
         if isinstance(f, ast.Name):
             for q, fv in self.ev(f, p):
@@ -362,7 +448,8 @@ class HeapExec(Exec):
             return
         if isinstance(f, ast.Attribute):
             # static call through the class name:  NodeMixin.__check_children(children)
-            if isinstance(f.value, ast.Name) and f.value.id == self.fam.cls and f.value.id not in p.env:
+            if isinstance(f.value, ast.Name) and f.value.id in (self.fam.cls, getattr(self.fam, "alias", None)) \
+                    and f.value.id not in p.env:
                 spec = self.fam.specs.get((self.mangle(f.attr), "static"))
                 if spec is None:
                     raise Unsupported("static call %s" % ast.unparse(f))
@@ -525,12 +612,19 @@ class HeapExec(Exec):
                 seq = self.as_iterseq(itv, q)
                 j = Int(fresh("j"))
                 sub = q.fork()
-                sub.env[var] = seq.at(j)
+                if isinstance(itv.x, dict) and "base" in itv.x:
+                    # a slice: quantify over the index into the underlying sequence (keeps instantiation patterns
+                    # free of arithmetic offsets)
+                    base, off = itv.x["base"], itv.x["off"]
+                    sub.env[var] = vref(base.a[j])
+                    rng = And(off <= j, j < off + seq.n)
+                else:
+                    sub.env[var] = seq.at(j)
+                    rng = And(0 <= j, j < seq.n)
                 res = list(self.ev_truth(elt, sub))
                 if len(res) != 1 or len(res[0][0].pc) != len(q.pc) or res[0][0].S is not q.S:
                     raise Unsupported("any/all body with effects: %s" % ast.unparse(g))
                 body = res[0][1]
-                rng = And(0 <= j, j < seq.n)
                 yield q, vbool(Exists([j], And(rng, body)) if name == "any" else ForAll([j], Implies(rng, body)))
             return
         if name == "max":
@@ -558,6 +652,35 @@ class HeapExec(Exec):
                 if effect:
                     self.viewpure_havoc(q)
                 yield q, vint(m)
+            return
+        if name == "next" and len(args) == 1 and isinstance(args[0], ast.GeneratorExp) and self.identity_index_pattern(args[0]):
+            g = args[0].generators[0]
+            for q, (sv, xv) in self.evs2(g.iter.args[0], [c for c in g.ifs[0].comparators + [g.ifs[0].left]
+                                                          if not (isinstance(c, ast.Name) and c.id == g.target.elts[1].id)][0], p):
+                s = self.seq_of(sv, q)
+                k = Int(fresh("pos"))
+                jj = Int("jj")
+                found = Exists([jj], And(0 <= jj, jj < s.n, s.a[jj] == xv.t))
+                r = q.fork(Not(found), "next:none")
+                if self.handlers:
+                    self.raise_(r, Exc("StopIteration", "next"))
+                else:
+                    self.oblig(q, "SAFE", "identity-index-exists", found, note="next() on an exhausted generator raises StopIteration")
+                q.assume(0 <= k, k < s.n, s.a[k] == xv.t, ForAll([jj], Implies(And(0 <= jj, jj < k), s.a[jj] != xv.t)))
+                yield q, vint(k)
+            return
+        if name == "zip" and len(args) == 1 and isinstance(args[0], ast.Starred):
+            for q, sv in self.ev(args[0].value, p):
+                if sv.k != "seqseq":
+                    raise Unsupported("zip(*%r)" % sv)
+                N, row = sv.t
+                M = Int(fresh("ziplen"))
+                kk = Int("kk")
+                q.assume(M >= 0, ForAll([kk], Implies(And(0 <= kk, kk < N), M <= row(kk).n)),
+                         Implies(N > 0, Exists([kk], And(0 <= kk, kk < N, M == row(kk).n))), Implies(N <= 0, M == 0))
+                from z3 import Lambda
+                yield q, V("iterseq", IterSeq(M, (lambda NN, rw: lambda i: V("aseq", ASeq(NN, Lambda([kk], rw(kk).a[i]))))(N, row),
+                                               desc="zip(*rows)"))
             return
         if name == "id":
             for q, vs in self.evs(args, p):
@@ -632,6 +755,15 @@ class HeapExec(Exec):
         """replace a call by the callee's contract: PRE obligations, then one continuation per outcome"""
         args = dict(args)
         for n, k in spec.params:
+            if n not in args:
+                raise Unsupported("argument %s of %s missing at the call site" % (n, spec.name))
+            ak = args[n].k
+            compatible = {"ref": ("ref", "aseq", "listref"), "aseq": ("aseq",), "listref": ("listref",),
+                          "qseq": ("qseq", "gen"), "fn": ("fn",), "optfn": ("optfn",), "optint": ("optint",),
+                          "int": ("int",), "bool": ("bool",), "any": ("any",), "optiter": ("optiter", "ref", "aseq")}
+            if k in compatible and ak not in compatible[k]:
+                raise Unsupported("argument %s of %s: a value of kind %s where the contract expects %s" % (n, spec.name, ak, k))
+        for n, k in spec.params:
             if k == "ref" and args[n].k == "aseq":
                 # a tuple value handed over as an object: it is iterable and iterates as itself
                 s = args[n].t
@@ -684,6 +816,7 @@ class HeapWorld:
     def make_arg(self, n, k):
         if k == "optiter":
             return V("optiter", Const("arg_" + n, R))
+        n = n.replace("*", "star_")
         if k == "aseq":
             return V("aseq", ASeq(Int("arg_%s_len" % n), Array("arg_%s_at" % n, I, R)))
         return V(k, Const("arg_" + n, R)) if k in ("ref", "listref") else initial_value(k, "arg_" + n)
@@ -693,6 +826,9 @@ class HeapWorld:
 
     def empty_out(self, spec):
         return ASeq(IntVal(0), K(I, NONE))
+
+    def make_arg_name(self, n):
+        return n.replace("*", "star_")
 
     def gen_value(self, p):
         return V("aseq", p.out)
@@ -722,6 +858,8 @@ def verify_spec(spec):
     ex = world.make_exec(spec, fi)
     S0 = world.initial_state()
     formal = fi.params()
+    if fi.node.args.vararg is not None:
+        formal = formal + ["*" + fi.node.args.vararg.arg]
     if [n for n, _ in spec.params] != formal:
         return fi, [], [StructFailure(fi.ident, "parameters %s differ from the contract's %s"
                                       % (formal, [n for n, _ in spec.params]))]
@@ -729,7 +867,7 @@ def verify_spec(spec):
     ctx = Ctx(spec, S0, args)
     ex.fnctx = ctx
     pre = clauses(spec.requires(ctx))
-    p0 = Path(dict(args), S0, list(S0.axioms) + world.arg_facts(args, spec) + [c.f for c in pre], [],
+    p0 = Path({n.lstrip("*"): v for n, v in args.items()}, S0, list(S0.axioms) + world.arg_facts(args, spec) + [c.f for c in pre], [],
               world.empty_out(spec) if spec.generator else None)
     hints = getattr(spec, "hints", None)
     if hints:
@@ -740,6 +878,13 @@ def verify_spec(spec):
         exits = ex.run(p0)
     except (Unsupported, frontend.StructError) as e:
         return fi, ex.obl, [StructFailure(fi.ident, "%s: %s" % (type(e).__name__, e))]
+    except Exception as e:
+        # a sidecar clause (invariant, precondition at a call site) cannot be evaluated on the shape the code now has
+        # (renamed/removed variable, value of another kind): the proof does not go through
+        import traceback
+        tb = traceback.extract_tb(e.__traceback__)[-1]
+        return fi, ex.obl, [StructFailure(fi.ident, "contract not applicable to this code: %s: %s (at %s:%d)"
+                                          % (type(e).__name__, e, tb.filename.split("/")[-1], tb.lineno))]
     fails = []
     try:
         _judge_exits(spec, world, ex, ctx, exits)
